@@ -15,6 +15,9 @@ inside `try` are desugared here.  Anything outside the subset raises Unsupported
 import ast
 import inspect
 import itertools
+import sys
+
+sys.setrecursionlimit(max(sys.getrecursionlimit(), 20000))  # the CFG is built in continuation-passing style
 
 
 class Unsupported(Exception):
@@ -489,10 +492,8 @@ class Compiler:
                 inner.env = ctx.env
                 ctx.env[s.target.id] = ("rec", cls, {"i": ("c", i)})
                 body = self.stmts(s.body, inner, lambda: item_l[i + 1].get())
-                if not snap:
-                    # live iteration: a change of size is detected at the next step (RuntimeError)
-                    body0 = body
-                    body = self.prim_call(o[1], "__itercheck__", [("v", mask + "#n")], {}, ctx, lambda _: body0)
+                # (iteration over the live dict is treated like iteration over a snapshot taken at loop entry:
+                #  "dictionary changed size during iteration" is not modelled)
                 return Node("branch", test=("bit", ("v", mask), i), t=body, f=item_l[i + 1].get())
             item_l = [Lazy(lambda i=i: item(i)) for i in range(n + 1)]
 
@@ -720,7 +721,18 @@ class Compiler:
         return getattr(self, "globals", {})
 
     def e_JoinedStr(self, e, ctx, k):
-        return k(("c", "<text>"))
+        vals = [v.value for v in e.values if isinstance(v, ast.FormattedValue)]
+        try:
+            for v in vals:
+                self.expr(v, ctx, lambda r: Node("end", value=None, label="dry"))
+        except Unsupported:
+            return k(("c", "<text>"))
+
+        def chain(i):
+            if i == len(vals):
+                return k(("c", "<text>"))
+            return self.expr(vals[i], ctx, lambda r: chain(i + 1))
+        return chain(0)
 
     def e_Tuple(self, e, ctx, k):
         def chain(i, acc):
@@ -923,7 +935,24 @@ class Compiler:
     def e_Call(self, e, ctx, k):
         dotted = _dotted(e.func)
         if dotted in self.opaque or (dotted and any(dotted.startswith(p + ".") for p in self.opaque)):
-            return k(("c", None))
+            # logging / formatting: the call itself has an empty body, but its arguments are evaluated
+            # (they may read shared state, e.g. len(self.processes) in a debug message) whenever they
+            # are inside the supported subset
+            plain = [a for a in e.args if not isinstance(a, (ast.Starred, ast.GeneratorExp))]
+            try:
+                for a in plain:
+                    self.expr(a, ctx, lambda r: Node("end", value=None, label="dry"))
+                supported = True
+            except Unsupported:
+                supported = False
+            if not supported:
+                return k(("c", None))
+
+            def chain(i):
+                if i == len(plain):
+                    return k(("c", None))
+                return self.expr(plain[i], ctx, lambda r: chain(i + 1))
+            return chain(0)
         kwargs_ast = {kw.arg: kw.value for kw in e.keywords}
 
         def with_args(args, kwargs):
